@@ -3,6 +3,7 @@ package roverif
 import (
 	"context"
 	"fmt"
+	"strconv"
 	"time"
 
 	"github.com/samber/lo"
@@ -594,6 +595,49 @@ func init() {
 	}})
 	regc(&CombDef{Name: "CombineLatestAll", Min: 2, Max: 3, Build: func(e *Env, s []ro.Observable[int]) ro.Observable[int] {
 		return ro.Map(sl2i)(ro.CombineLatestAll[int]()(obsOfObs(s)))
+	}})
+	// the interface-typed instantiation: consecutive values of one source differ in dynamic type, one value
+	// is the nil interface
+	regc(&CombDef{Name: "CombineLatestAny", Min: 2, Max: 3, Build: func(e *Env, s []ro.Observable[int]) ro.Observable[int] {
+		enc := ro.Map(func(x int) any {
+			switch {
+			case x%10 == 2:
+				return nil
+			case x%3 == 0:
+				return int64(x)
+			case x%3 == 1:
+				return strconv.Itoa(x)
+			}
+			return x
+		})
+		anys := make([]ro.Observable[any], len(s))
+		for i := range s {
+			anys[i] = enc(s[i])
+		}
+		dec := ro.Map(func(a []any) []int {
+			v := make([]int, len(a))
+			for i := range a {
+				switch t := a[i].(type) {
+				case int64:
+					v[i] = int(t)
+				case string:
+					v[i], _ = strconv.Atoi(t)
+				case int:
+					v[i] = t
+				case nil:
+					v[i] = -2 // decoded below from the position's source: the only value ending in 2
+				}
+			}
+			return v
+		})
+		return ro.Map(func(v []int) int {
+			for i := range v {
+				if v[i] == -2 {
+					v[i] = 10*(i+1) + 2
+				}
+			}
+			return sl2i(v)
+		})(dec(ro.CombineLatestAny(anys...)))
 	}})
 	regc(&CombDef{Name: "Zip2", Min: 2, Max: 2, Build: func(e *Env, s []ro.Observable[int]) ro.Observable[int] {
 		return ro.Map(t2i)(ro.Zip2(s[0], s[1]))
